@@ -17,7 +17,7 @@ def RULE(tier):
     return ("explicit-state BFS from the empty registry and from every constructor-seeded registry over ALL operations "
             "add/rem(name?,addr?)/changeAddrAtName/changeNameAtAddr/clear with every (name, addr) pair of the small domains; "
             "state = the pair of mappings; the graph is closed (frontier empty). Invariants in every state: the two mappings "
-            "are exact inverses and injective; a call that raised or returned False left both unchanged; a call that returned "
+            "are exact inverses and injective; a call that raised (also TypeError for an address that cannot be a dict key) or returned False left both unchanged; a call that returned "
             "True changed exactly what a dict-pair model says. Plus every constructor call Namer(entries=[...]) with <= 3 entries over 16 "
             "(name, addr) pairs (repeated names, shared addresses, empties): it raises exactly when adding the entries one by one is "
             "rejected, else the mappings are the model's.")
@@ -35,6 +35,10 @@ for n in NAMES:
         OPS.append(("chaddr", n, a))
         OPS.append(("chname", n, a))
 OPS.append(("clear", None, None))
+UNHASHABLE = ["h", 1]      # an address as it comes out of JSON: usable in comparisons, not as a key of the inverse mapping
+for n in ("a", "ab", ""):
+    for kind in ("add", "rem", "chaddr", "chname"):
+        OPS.append((kind, n, UNHASHABLE))
 
 SEEDS = [(), (("a", "x"),), (("a", "x"), ("b", "y")), (("a", "x"), ("b", "y"), ("ab", "xy"))]
 
@@ -91,7 +95,7 @@ def model(fwd, op):
     """dict model: returns (result, new_fwd); result 'err' for rejected"""
     kind, n, a = op
     fwd = dict(fwd)
-    inv = {v: k for k, v in fwd.items()}
+    inv = {v: k for k, v in fwd.items() if not isinstance(v, list)}     # (a broken implementation may have let a list in)
     if kind == "clear":
         return None, {}
     if kind == "add":
@@ -147,15 +151,28 @@ def make_run(seed):
                 res = apply(nm, tuple(op))
             except hioing.NamerError:
                 res = "err"
+            except TypeError as ex:
+                if isinstance(op[2], list):
+                    res = "err"    # an address that cannot be a key is refused; like every refusal it must change nothing
+                else:
+                    res = "exc:TypeError"
+                    viols.append(("raises:TypeError:%s" % op[0], "%r raised %r after %r" % (op, ex, hist[:-1])))
             except Exception as ex:
                 res = "exc:" + type(ex).__name__
                 viols.append(("raises:%s:%s" % (type(ex).__name__, op[0]), "%r raised %r after %r" % (op, ex, hist[:-1])))
             after = (nm.addrByName, nm.nameByAddr)
-            mres, fwd2 = model(fwd, tuple(op))
+            if isinstance(op[2], list):
+                mres, fwd2 = (res if res in ("err", False) else "err"), dict(fwd)     # refused one way or the other, nothing changes
+            else:
+                mres, fwd2 = model(fwd, tuple(op))
             if res in ("err", False) and after != before:
                 viols.append(("rejected-op-mutates:%s:%s" % (op[0], res), "%r returned %r but changed %r -> %r" % (op, res, before, after)))
             f, b = after
-            if {v: k for k, v in f.items()} != b or len(set(f.values())) != len(f) or {v: k for k, v in b.items()} != f:
+            try:
+                broken = {v: k for k, v in f.items()} != b or len(set(f.values())) != len(f) or {v: k for k, v in b.items()} != f
+            except TypeError:          # a value that cannot be a key sits in one of the mappings: they cannot be inverses
+                broken = True
+            if broken:
                 viols.append(("not-inverse:" + op[0], "after %r: addrByName=%r nameByAddr=%r" % (hist, f, b)))
             if res != mres and not str(res).startswith("exc"):
                 viols.append(("result:%s:%r-vs-%r" % (op[0], res, mres), "%r returned %r, model %r, history %r" % (op, res, mres, hist)))
@@ -163,12 +180,14 @@ def make_run(seed):
                 viols.append(("content:" + op[0], "after %r addrByName=%r, model %r" % (hist, f, fwd2)))
             # getters agree
             for k, v in f.items():
+                if isinstance(v, list):
+                    continue
                 if nm.getAddr(k) != v or nm.getName(v) != k:
                     viols.append(("getter", "getAddr/getName disagree with mappings after %r" % (hist,)))
             if nm.countNameAddr != len(f):
                 viols.append(("count", "countNameAddr %r vs %r" % (nm.countNameAddr, len(f))))
             fwd = dict(f)  # keep following the implementation
-        key = (tuple(sorted(nm.addrByName.items())), tuple(sorted(nm.nameByAddr.items())))
+        key = (tuple(sorted((repr(k), repr(v)) for k, v in nm.addrByName.items())), tuple(sorted((repr(k), repr(v)) for k, v in nm.nameByAddr.items())))
         return key, viols, key
     return run
 
